@@ -139,7 +139,14 @@ def reconnect_programs():
     """C17's reconnect histories (endings, pending requests still queued behind a writer that stopped draining, requests
     issued during the reconnect), judged here by the role monitor on every connection separately."""
     from harness.checks import c17
-    return c17.cases().map(lambda case: dict(c17.build(case)[0], gen='reconnect'))
+    def early(case):
+        # every other history: a reconnect is requested while the first connect() is still in its transport's handshake
+        if not case.get('lease') and not case.get('early_reconnect') and len(case['endings']) % 2:
+            n = len(case['endings'])
+            case = dict(case, early_reconnect={'connect_ticks': (5, 30, 60)[n % 3], 'at': n % 3, 'times': 1 + (n // 2) % 2})
+        return case
+
+    return c17.cases().map(early).map(lambda case: dict(c17.build(case)[0], gen='reconnect'))
 
 
 # ---- the awaitable client API (AwaitableRSocket + CollectorSubscriber with limit_rate) as the requesting application
